@@ -31,7 +31,7 @@ def project(trace):
         ev = e["ev"]
         if ev in ("SubmitCall", "SubmitRet", "SubmitRaise", "ShutdownCall", "ShutdownRet", "End"):
             out.append([ev, e["f"], e["t"]])
-        elif ev in ("DelegateSubmit", "CancelArrived", "DelegateShutdown") and e["s"] == "tap1":
+        elif ev in ("DelegateSubmit", "CancelArrived", "DelegateShutdown", "DelegateShutdownRet") and e["s"] == "tap1":
             out.append([ev, e["f"], e["t"]])
         elif ev == "DelegateState" and e["c"] == 1 and e["s"] in ("FINISHED", "CANCELLED"):
             out.append([ev, e["f"], e["t"]])
